@@ -695,6 +695,11 @@ func runC02(ctx *core.Ctx) {
 		runC02Oracle(ctx)
 		return
 	}
+	if os.Getenv("C02_ONLY") == "round5" { // development aid: only the streams added in round 5 (many seeds, quickly)
+		runC02StageRepeat(ctx)
+		runC02ExtendsX(ctx)
+		return
+	}
 	// ---- 1. exhaustive small scope
 	// 1a. path matching: every pattern/path pair over a small alphabet of parts up to 3 parts (+ the root)
 	partsAlpha := []string{"a", "b", "*", "[]", ""}
